@@ -415,8 +415,8 @@ def known_finding_reproducers(rng):
 
 
 def plain_for_pcap(ls):
-    """eth / dot1q* / ip|ip6 ... : the stacks for which libpcap predicates are generated"""
-    return ls and ls[0].startswith("eth ")
+    """eth / dot1q* / ip|ip6 ..., eth / pppoe, eth / mpls+, loop / ip|ip6, sll / ip|ip6: stacks with libpcap predicates"""
+    return ls and ls[0].split(" ")[0] in ("eth", "loop", "sll")
 
 
 def gen_packet_ops(rng, n, maxpay, tier):
